@@ -78,16 +78,16 @@ LookupFails(r, s, p) == LET st == StepsOf(r, s)[p] IN st.cl_id # 0 /\ ~LayerExis
 OutcomeLast(r, s, p) == IF LastAtt(r, s) >= 2 THEN StepsOf(r, s)[p].o2 ELSE StepsOf(r, s)[p].o
 StepPasses(r, s, p) == LET st == StepsOf(r, s)[p]  o == OutcomeLast(r, s, p) IN
    /\ st.def /\ ~StepHookRaised(r, s, p) /\ ~LookupFails(r, s, p)
-   /\ (o = "pass" \/ (o = "pending" /\ Wip(r, s)))
+   /\ (o \in {"pass", "nest_pass"} \/ (o \in {"pending", "nest_pending"} /\ Wip(r, s)))
 
 \* ---------------------------------------------------------------- "something went wrong", from source events only
 BadEvent(r, e) ==
-   \/ e.k = "step" /\ e.outcome \in {"fail", "error", "kbd"}
-   \/ e.k = "step" /\ e.outcome = "pending" /\ ~Wip(r, e.el)
+   \/ e.k = "step" /\ e.outcome \in {"fail", "error", "kbd", "nest_fail", "nest_error", "nest_undef"}
+   \/ e.k = "step" /\ e.outcome \in {"pending", "nest_pending"} /\ ~Wip(r, e.el)
    \/ e.k = "step" /\ LookupFails(r, e.el, e.pos)
    \/ e.k = "hook" /\ e.raised
    \/ e.k = "cleanup" /\ e.raised
-   \/ e.k = "hook" /\ e.name = "before_step" /\ ~e.raised /\ StepsOf(r, e.el)[e.pos].o = "badarg"   \* converter raises
+   \/ e.k = "hook" /\ e.name = "before_step" /\ ~e.raised /\ e.pos # 0 /\ StepsOf(r, e.el)[e.pos].o = "badarg"   \* converter raises
    \/ e.k = "fmt" /\ e.name = "match" /\ e.undefined                                               \* undefined step reached
 \* (only in SELECTED scenarios: an undefined step of a de-selected scenario is none of the run's business)
 UndefinedStatusSeen(r) == \E s \in Scens(r) : Sel(r, s) /\ \E p \in DOMAIN r.end.step_status[s] :
@@ -116,6 +116,8 @@ Enrich(r0) ==
               shr |-> {<<E[i].el, E[i].pos>> : i \in {j \in I : IsStepHook(E[j]) /\ E[j].raised /\ E[j].att = last[E[j].el]}},
               bss |-> {<<E[i].el, E[i].pos>> : i \in {j \in I : E[j].k = "hook" /\ E[j].name = "before_step" /\ E[j].att = last[E[j].el]}},
               bsr |-> {<<E[i].el, E[i].pos>> : i \in {j \in I : E[j].k = "hook" /\ E[j].name = "before_step" /\ E[j].raised /\ E[j].att = last[E[j].el]}},
+              subs |-> {<<E[i].el, E[i].pos>> : i \in {j \in I : E[j].k = "sub" /\ E[j].att = last[E[j].el]}},
+              afters |-> {<<E[i].el, E[i].pos>> : i \in {j \in I : E[j].k = "after_nested" /\ E[j].att = last[E[j].el]}},
               executed |-> {E[i].el : i \in {j \in I : E[j].k = "hook" /\ E[j].name = "before_scenario"}},
               anyHookRaised |-> \E i \in I : IsHook(E[i]) /\ E[i].raised,
               anyCleanupRaised |-> \E i \in I : E[i].k = "cleanup" /\ E[i].raised]]
@@ -135,7 +137,10 @@ MapStatus(r, s, p) == LET o == OutcomeLast(r, s, p) IN
    IF LookupFails(r, s, p) THEN "error"
    ELSE CASE o = "pass" -> "passed" [] o = "fail" -> "failed" [] o \in {"error", "kbd"} -> "error"
           [] o = "pending" -> (IF Wip(r, s) THEN "pending_warn" ELSE "pending")
-          [] o = "skip" -> "skipped" [] OTHER -> "?"
+          [] o = "skip" -> "skipped"
+          \* the step delegates to a sub-step through context.execute_steps(): passes iff the sub-step passes
+          [] o = "nest_pass" -> "passed" [] o \in {"nest_fail", "nest_error", "nest_undef"} -> "failed"
+          [] o = "nest_pending" -> (IF Wip(r, s) THEN "passed" ELSE "failed") [] OTHER -> "?"
 SeqOfStepEvs(r, s) == SelectSeq([i \in Ix(r) |-> i], LAMBDA i : i \in StepEvs(r, s))
 C02Scenario(r, s) ==
    LET calls == SeqOfStepEvs(r, s)
@@ -146,6 +151,10 @@ C02Scenario(r, s) ==
        skipAt(p) == Called(r, s, p) /\ OutcomeLast(r, s, p) = "skip" /\ ~StepHookRaised(r, s, p) /\ ~LookupFails(r, s, p)
        started(p) == BeforeStepSeen(r, s, p) \/ (\E i \in Ix(r) : Ev(r, i).k = "fmt" /\ Ev(r, i).name = "result" /\ Ev(r, i).el = s /\ Ev(r, i).pos = p /\ Ev(r, i).status = "undefined")
    IN
+   IF <<s, 0>> \in r.x.shr      \* a hook of a nested sub-step raised: order and dry-run clauses only
+   THEN (IF \E a, b \in DOMAIN calls : a < b /\ Ev(r, calls[a]).pos >= Ev(r, calls[b]).pos THEN {"C02.order"} ELSE {})
+        \cup (IF r.cfg.dry /\ StepEvs(r, s) # {} THEN {"C02.dry"} ELSE {})
+   ELSE
    (IF ~okLen THEN {"C02.order"} ELSE {})
    \* order: the call order is the document order fbg, rbg, own; every step function at most once
    \cup (IF \E a, b \in DOMAIN calls : a < b /\ Ev(r, calls[a]).pos >= Ev(r, calls[b]).pos THEN {"C02.order"} ELSE {})
@@ -194,6 +203,9 @@ C03Family(r, c) ==   \* names the known defect families so that narrow known-fin
    IF Kind(r, c) = "outline" /\ r.end.status[c] = "passed" /\ Rng(cs) \subseteq ({"skipped"} \cup UntestedLike) THEN "outline_untested"
    ELSE IF Kind(r, c) = "scenario" /\ r.end.status[c] = "skipped" /\ (\E p \in DOMAIN cs : cs[p] \in PassedLike)
            /\ (\E i \in StepEvs(r, c) : Ev(r, i).outcome = "skip") THEN "skip_by_step"
+   \* the scan of compute_status stops at the first untested child: a later failed / error child is not seen (KF-C03-2)
+   ELSE IF Kind(r, c) # "scenario" /\ r.end.status[c] \in {"failed", "untested"}
+           /\ (\E i, j \in DOMAIN cs : i < j /\ cs[i] \in UntestedLike /\ cs[j] \in FailedOrError) THEN "order"
    ELSE "none"
 \* re-running an element yields statuses that depend only on the latest run: a step that the latest attempt did not
 \* start carries no "executed" status of an earlier attempt
@@ -257,7 +269,8 @@ NestStep(r, st, e) ==
         \* own bracket, a sibling tag bracket of the same element, or (for the element's own hook) its tag brackets
         LET top == IF st.open = <<>> THEN [kind |-> "none", el |-> 0, tag |-> "", pos |-> 0] ELSE st.open[Len(st.open)]
             okTop == CASE k.kind = "all" -> st.open = <<>>
-                       [] k.kind = "step" -> top.kind = "scenario" /\ top.el = k.el
+                       [] k.kind = "step" -> (top.kind = "scenario" /\ top.el = k.el) \/
+                                             (k.pos = 0 /\ top.kind = "step" /\ top.el = k.el /\ top.pos # 0)    \* nested sub-step
                        [] k.kind = "tag" -> (top.kind = "tag" /\ top.el = k.el) \/ top.kind = "all" \/
                                             (top.kind \in {"feature", "rule"} /\ top.el \in Anc(r, k.el))
                        [] OTHER -> (top.kind = "tag" /\ top.el = k.el) \/ top.kind = "all" \/
@@ -362,7 +375,7 @@ C18(r) ==
           (e.k = "fmt" \/ e.k = "rep" \/ (e.k = "hook" /\ ~IsStepHook(e))) /\ (~e.out_real \/ ~e.err_real)
     THEN {"C18.restored"} ELSE {})
    \* while capture is on, step and step-hook code never sees the real stream; with capture off it does
-   \cup (IF \E i \in Ix(r) : LET e == Ev(r, i) IN (e.k = "step" \/ IsStepHook(e)) /\
+   \cup (IF \E i \in Ix(r) : LET e == Ev(r, i) IN (e.k \in {"step", "sub", "after_nested"} \/ IsStepHook(e)) /\
               (e.out_real # ~r.cfg.cap_out \/ e.err_real # ~r.cfg.cap_err)
          THEN {"C18.no_leak"} ELSE {})
 
@@ -372,13 +385,15 @@ AfterStepSeen(r, s, p) == \E i \in Ix(r) : Ev(r, i).k = "hook" /\ Ev(r, i).name 
 Produced(r, s, q) ==      \* everything written while step q of scenario s was running, per stream
    [out |-> (IF BeforeStepSeen(r, s, q) THEN {[t |-> "Hb", el |-> s, pos |-> q]} ELSE {})
             \cup (IF Called(r, s, q) THEN {[t |-> "O", el |-> s, pos |-> q]} ELSE {})
+            \cup (IF <<s, q>> \in r.x.subs THEN {[t |-> "N", el |-> s, pos |-> q]} ELSE {})        \* nested sub-step body
+            \cup (IF <<s, q>> \in r.x.afters THEN {[t |-> "A", el |-> s, pos |-> q]} ELSE {})      \* calling step after execute_steps()
             \cup (IF AfterStepSeen(r, s, q) THEN {[t |-> "Ha", el |-> s, pos |-> q]} ELSE {}),
     err |-> IF Called(r, s, q) THEN {[t |-> "E", el |-> s, pos |-> q]} ELSE {},
     log |-> IF Called(r, s, q) THEN {[t |-> "L", el |-> s, pos |-> q]} ELSE {}]
 CapturedUpTo(r, s, p) == UNION {(IF r.cfg.cap_out THEN Produced(r, s, q).out ELSE {}) \cup (IF r.cfg.cap_err THEN Produced(r, s, q).err ELSE {})
                                 \cup (IF r.cfg.cap_log THEN Produced(r, s, q).log ELSE {}) : q \in 1..p}
 C18Marks(r) ==
-   LET pairs == r.x.bss \cup r.x.called
+   LET pairs == {sp \in r.x.bss \cup r.x.called : sp[2] # 0}       \* (position 0 = hooks of nested sub-steps: print nothing)
        outP == UNION {Produced(r, sq[1], sq[2]).out : sq \in pairs}
        errP == UNION {Produced(r, sq[1], sq[2]).err : sq \in pairs}
    IN
@@ -394,7 +409,7 @@ C18Marks(r) ==
          THEN {"C18.report_exact"} ELSE {})
    \* no report on steps that did not fail
    \cup (IF \E s \in Scens(r) : \E p \in DOMAIN r.end.errmarks[s] :
-              p \in DOMAIN r.end.step_status[s] /\ r.end.step_status[s][p] \notin FailedOrError /\ r.end.errmarks[s][p] # <<>>
+              LastAtt(r, s) = 1 /\ p \in DOMAIN r.end.step_status[s] /\ r.end.step_status[s][p] \notin FailedOrError /\ r.end.errmarks[s][p] # <<>>
          THEN {"C18.pass_silent"} ELSE {})
 \* logging: the user's own root handler and the root level are the same at every hook outside steps (driver probes)
 C18Log(r) ==
@@ -409,5 +424,5 @@ ExitClauses(r0) == C01Exit([Enrich(r0) EXCEPT !.base = r0.base] @@ [exit |-> r0.
 ClausesMCX(r) == C01(r) \cup C02(r) \cup C03(r) \cup C09(r) \cup C12(r) \cup C13rCl(r) \cup C18(r) \cup C18Marks(r)
 ClausesMC(r0) == ClausesMCX(Enrich(r0))
 \* defect families of the code as it is (DESIGN §8): the specification models them, the property layer rejects them
-KnownFamilies == {"C03.rollup/skip_by_step"}
+KnownFamilies == {"C03.rollup/skip_by_step", "C03.rollup/order"}
 =============================================================================
